@@ -78,9 +78,65 @@ def expand_cached(parts, cache, depth=0):
     out = []
     for p_ in parts:
         if isinstance(p_, tuple) and len(p_) == 2 and p_[0] == "this" and p_[1] in cache and depth < 4:
-            out += expand_cached(path_expr_parts(cache[p_[1]]), cache, depth + 1)
+            c_ = cache[p_[1]]
+            out += expand_cached(list(c_[1]) if isinstance(c_, tuple) and c_ and c_[0] == "parts" else path_expr_parts(c_), cache, depth + 1)
         else:
             out.append(p_)
+    return out
+
+
+def validated_cache(run, cache):
+    """Members kept up to date by a refresh-before-use protocol (cdnsverif/caches.py) join the cache table; returns
+    (resolver for path_expr_parts, reason the protocol could not be decided or None)."""
+    from .. import caches
+    facts = run.facts
+    sources = {"m_value", "m_extension"}
+    try:
+        values, commits, refreshers = caches.validated(facts, WSTR, sources)
+        stale = caches.fresh_uses(facts, WSTR, values, commits, refreshers, sources) if values else []
+    except caches.Undecided as ex:
+        return None, str(ex)
+    if stale:
+        f, line, why = stale[0]
+        return None, "%s (line %s)" % (why, line)
+    for m, ps in values.items():
+        cache[m] = ("parts", ps)
+
+    def resolver(e, fn):
+        """the value of `this->refresher()` and of locals bound once to such a call"""
+        u = unwrap_all_casts(e)
+        if isinstance(u, dict) and u.get("k") == "MCall" and isinstance(u.get("callee"), dict) and unwrap(u.get("recv") or {}).get("k") == "This":
+            key = (u["callee"].get("qn"), tuple(u["callee"].get("sig") or ()))
+            if refreshers.get(key):
+                return [("this", refreshers[key])]
+        return None
+    return resolver, None
+
+
+def resolve_locals(parts, fn, resolver, depth=0):
+    """single-assignment locals in a parts list are replaced by the parts of their initialiser"""
+    if fn is None or depth > 4:
+        return parts
+    out = []
+    for p_ in parts:
+        if isinstance(p_, tuple) and len(p_) == 1 and p_[0].startswith("l:"):
+            name, _, vid = p_[0][2:].partition("#")
+            init = None
+            stores = 0
+            for n in ir.walk(fn["body"]):
+                if n.get("k") == "Decl":
+                    for v in n.get("vars", []):
+                        if str(v.get("id")) == vid and v.get("n") == name and v.get("init") is not None:
+                            init = v["init"]
+                if n.get("k") in ("Bin", "OpCall") and n.get("op") == "=":
+                    lhs = n.get("lhs") if n.get("k") == "Bin" else (n.get("args") or [None])[0]
+                    if lhs is not None and path(lhs) == p_:
+                        stores += 1
+            if init is not None and not stores:
+                r = resolver(init, fn) if resolver else None
+                out += resolve_locals(r if r is not None else path_expr_parts(init), fn, resolver, depth + 1)
+                continue
+        out.append(p_)
     return out
 
 
@@ -89,6 +145,14 @@ def check(run):
     cache = cached_path_members(facts, WSTR)
     cache.pop("m_value", None)
     cache.pop("m_extension", None)
+    resolver, cache_undecided = validated_cache(run, cache)
+
+    def parts_at(e, fn):
+        r = resolver(e, fn) if resolver else None
+        u = unwrap_all_casts(e)
+        if r is None and isinstance(u, dict) and u.get("k") == "MCall" and callee_name(u) in ("c_str", "data") and not u.get("args"):
+            r = resolver(u.get("recv"), fn) if resolver else None
+        return expand_cached(resolve_locals(r if r is not None else path_expr_parts(e), fn, resolver), cache)
     # ---------------- R15.1 who may open / rename, and what is opened
     opens, renames = [], []
     for f in facts.functions.values():
@@ -112,10 +176,14 @@ def check(run):
     open_parts = None
     if opens:
         f, c = opens[0]
-        open_parts = expand_cached(path_expr_parts(c["args"][0]), cache)
+        open_parts = parts_at(c["args"][0], f)
         okp = open_parts[-1:] == [".part"] and ("this", "m_value") in open_parts
+        if not okp and cache_undecided:
+            okp = None
         run.ob("R15.1", "open-target-is-.part", okp, f, c.get("l", 0),
-               "the stream is opened on <name><ext>.part" if okp else "the stream is opened on %s, not on the .part name" % open_parts)
+               "the stream is opened on <name><ext>.part" if okp else
+               ("the stream is opened on %s, not on the .part name" % open_parts if okp is False else
+                "the opened name %s is kept in members whose refresh protocol is not decided: %s" % (open_parts, cache_undecided)))
     ok = len(renames) == 1 and renames[0][0].get("cls") == WSTR and renames[0][0]["qn"].endswith("::close")
     run.ob("R15.1", "single-rename-site", ok, renames[0][0] if renames else None, renames[0][1].get("l", 0) if renames else 0,
            "rename is called at exactly one site, Writer<std::string>::close" if ok else
@@ -145,12 +213,15 @@ def check(run):
            "pending data flushed, descriptor closed, then the file is renamed" if ok else
            "Writer<std::string>::close performs %s; the file must be given its final name only after flush and close" % core)
     if ren is not None and open_parts is not None:
-        src = expand_cached(path_expr_parts(ren[0]["args"][0]), cache)
-        dst = expand_cached(path_expr_parts(ren[0]["args"][1]), cache)
+        src = parts_at(ren[0]["args"][0], cf)
+        dst = parts_at(ren[0]["args"][1], cf)
         ok = src == open_parts and dst == open_parts[:-1]
+        if not ok and cache_undecided:
+            ok = None
         run.ob("R15.2", "close:rename(part,final)", ok, cf, ren[0].get("l", 0),
                "rename(<opened .part path>, <same path without .part>)" if ok else
-               "rename(%s, %s) does not move the opened path %s to its name without .part" % (src, dst, open_parts))
+               ("rename(%s, %s) does not move the opened path %s to its name without .part" % (src, dst, open_parts) if ok is False else
+                "rename(%s, %s): names kept in members whose refresh protocol is not decided: %s" % (src, dst, cache_undecided)))
         # rename only when the stream was open
         okg = any("is_open" in repr(a) for a in conjuncts(ren[1]))
         run.ob("R15.2", "close:rename-only-if-open", okg, cf, ren[0].get("l", 0), "nothing is renamed unless a stream was open")
